@@ -106,6 +106,10 @@ func (e *esdtFreezeWipe) toggleFreeze(acntDst vmcommon.UserAccountHandler, token
 	esdtUserMetadata := ESDTUserMetadataFromBytes(tokenData.Properties)
 	esdtUserMetadata.Frozen = e.freeze
 	tokenData.Properties = esdtUserMetadata.ToBytes()
+	if arePropertiesEmpty(tokenData.Properties) {
+		// an entry that is not frozen carries no properties, exactly as before it was frozen
+		tokenData.Properties = nil
+	}
 
 	err = saveESDTData(acntDst, tokenData, tokenKey, e.marshalizer)
 	if err != nil {
